@@ -25,7 +25,7 @@ Definition closed_outs (es : list event) : list out :=
 Lemma run_closed : forall es c, closed c = true -> run c es = (c, closed_outs es).
 Proof.
   induction es as [|e es IH]; intros c Hc; [reflexivity|].
-  rewrite run_cons. destruct e as [d|m|]; cbn [step]; rewrite ?Hc; cbn [existsb is_escaped orb]; rewrite (IH c Hc); reflexivity.
+  rewrite run_cons. destruct e as [d|m| |m]; cbn [step]; rewrite ?Hc; cbn [existsb is_escaped orb]; rewrite (IH c Hc); reflexivity.
 Qed.
 
 Lemma run_app : forall pre es c, run c (pre ++ es) =
